@@ -114,6 +114,10 @@ def make_filter_class(script, rec, w=None, meta=None):
                 self.stop_evt.set()
                 return None
             rec.append(['l', k])
+            if script.get('poke') and getattr(self, 'emitter', None) is not None:
+                # what the telemetry bridge does from its export thread: hand fresh metric facets to the lineage emitter.
+                # It only stores them for the next heartbeat; it is not an event of its own (Lineage.v has no such step)
+                self.emitter.update_heartbeat_lineage(facets={'frames_processed': k})
             if w is not None and script.get('steps'):
                 w.now += int(script['steps'][k] * 1e9) if k < len(script['steps']) else 0
                 meta.setdefault('clock', []).append(w.now)
@@ -221,6 +225,10 @@ def run_script(script, with_lineage=True, beats=0, race=False):
         if emitter is not None and emitter._thread is not None:
             emitter._stop_event.set()
             emitter._thread.join(2)
+        if emitter is not None and script.get('poke'):
+            # the exporter's final flush at process exit comes after the run has reported its terminal event
+            emitter.update_heartbeat_lineage(facets={'frames_processed': 99})
+            emitter.update_heartbeat_lineage()
     finally:
         of_mq.MQ.destroy = saved_destroy
         of_mq.MQ.send_exit_msg = saved_send_exit
@@ -386,5 +394,11 @@ def life_oracle(run, s, obs, props):
             hard = [f for f in faults if f[1] in ('exc', 'base') and not (f[0].startswith('loop') and f[1] == 'exc' and not s['loop_exc'])]
             if len(faults) == 1 and hard and ev[-1] != 'ABORT':
                 run.violation('lineage-terminal error-run-ends-%s %s' % (ev[-1], key), 'failed run ended with %s' % ev[-1], case)
+            # a run that ended because the filter obeyed a neighbour's ERROR exit (PropagateError) did not end cleanly,
+            # whatever its own propagate policy says about passing the error on
+            obeyed = [f for f in faults if f[1] == 'prop' and (not f[0].startswith('loop') or s['loop_exc'])]
+            if len(faults) == 1 and obeyed and ev[-1] != 'ABORT':
+                run.violation('lineage-terminal obeyed-error-run-ends-%s prop=%d %s' % (ev[-1], s['prop_exit'], key),
+                              'a run ended by an obeyed error exit reported %s' % ev[-1], case)
     if 'C18' in props and not obs['events'] and s['ctor'] == 'ok' and s['init'] == 'ok':
         run.violation('lineage-no-events %s' % key, 'no lineage event at all for a run that started', case)
